@@ -121,11 +121,22 @@ func RunSrv(args []string) error {
 		}(i)
 	}
 	wg.Wait()
+	// a script the driver could not carry through (the real server did not react the way every driver step relies
+	// on) is recorded as such and the other scripts still count: the trace specification reports it as drift
+	failed := 0
 	for i := range scripts {
 		if errs[i] != nil {
-			return fmt.Errorf("script %d: %w", i+1, errs[i])
+			failed++
+			fmt.Fprintf(os.Stderr, "script %d: %v\n", i+1, errs[i])
+			if len(results[i]) == 0 {
+				continue
+			}
+			results[i] = append(results[i], map[string]any{"op": "harnesserror", "run": i + 1, "err": errs[i].Error()})
 		}
 		lg.EmitAll(results[i])
+	}
+	if failed == len(scripts) && failed > 0 {
+		return fmt.Errorf("every script failed; first: %w", errs[0])
 	}
 	return lg.Close()
 }
@@ -419,7 +430,7 @@ func runSrvScript(run int, sc srvScript) (evs []map[string]any, err error) {
 		ev["run"] = run
 		r.extra = nil
 		if err := r.step(st, ev); err != nil {
-			return nil, fmt.Errorf("step %v: %w", st, err)
+			return evs, fmt.Errorf("step %v: %w", st, err)
 		}
 		for _, x := range r.extra {
 			x["run"] = run
@@ -434,7 +445,7 @@ func runSrvScript(run int, sc srvScript) (evs []map[string]any, err error) {
 			break
 		}
 		if err := r.quiesce(); err != nil {
-			return nil, err
+			return evs, err
 		}
 		ev["closed"] = r.newlyClosed()
 		ev["deliv"] = r.collect()
